@@ -14,49 +14,62 @@ the translators: only the export of the IR and the emitted text are read).
 import re
 
 # ------------------------------------------------------------------ IR side
-def inventory(e):
+def inventory(e, skip_defaults=False):
+    """[tag, name, attrs] in Kotlin print order.  attrs carry, besides the modifiers, the indices (into e["tt"]) of
+    the types the program carries at that declaration: var {t: declared, inf: inferred, global}, varannot {t},
+    field {t}, param {t, vararg}, func {ret, inf, nested, nparams}, retannot {t}, tparam {bound}, super {t},
+    new {t, explicit}, targs {ts}.  `skip_defaults`: without the default values of parameters (Java)."""
     out = []
 
     def tps(ixs):
         for i in ixs:
             t = e["tt"][i]
-            out.append(["tparam", tname(e, i), {}])
+            out.append(["tparam", tname(e, i), {"bound": t.get("bound") if isinstance(t, dict) else None,
+                                                 "var": t.get("var", 0) if isinstance(t, dict) else 0}])
 
     def L(xs, **kw):
         for x in xs:
             N(x, **kw)
 
-    def N(n, lam=False):
+    def N(n, lam=False, top=False, member=False, nf=False):
         if n is None:
             return
         k = n["n"]
         if k == "block":
             L(n["body"])
         elif k == "super":
-            out.append(["super", None, {}])
+            out.append(["super", None, {"t": n["t"]}])
             if n["args"] is not None:
                 L(n["args"])
         elif k == "class":
             out.append(["class", n["name"], {"ctype": n["ctype"], "final": n["isFinal"]}])
-            tps(n["tparams"]); L(n["fields"]); L(n["supers"]); L(n["funcs"])
+            tps(n["tparams"]); L(n["fields"]); L(n["supers"]); L(n["funcs"], member=True)
         elif k == "var":
-            out.append(["var", n["name"], {"final": n["isFinal"]}])
+            out.append(["var", n["name"], {"final": n["isFinal"], "t": n["varType"], "inf": n.get("inferred"),
+                                           "global": top}])
             if n["varType"] is not None:
-                out.append(["varannot", n["name"], {}])
+                out.append(["varannot", n["name"], {"t": n["varType"]}])
             N(n["expr"])
         elif k == "arg":
             N(n["expr"])
         elif k == "field":
-            out.append(["field", n["name"], {"final": n["isFinal"], "open": n["canOverride"], "override": n["override"]}])
+            out.append(["field", n["name"], {"final": n["isFinal"], "open": n["canOverride"], "override": n["override"],
+                                             "t": n["t"]}])
         elif k == "param":
-            out.append(["param", n["name"], {"vararg": n["vararg"], "lambda": lam}])
-            N(n["default"])
+            out.append(["param", n["name"], {"vararg": n["vararg"], "lambda": lam, "t": n["t"],
+                                             "default": n["default"] is not None, "nestedfunc": nf}])
+            if not skip_defaults:
+                N(n["default"])
         elif k == "func":
             out.append(["func", n["name"], {"final": n["isFinal"], "override": n["override"],
-                                            "abstract": n["body"] is None, "ftype": n["ftype"]}])
-            tps(n["tparams"]); L(n["params"])
+                                            "abstract": n["body"] is None, "ftype": n["ftype"],
+                                            "ret": n["retType"], "inf": n.get("inferred"),
+                                            "nested": not (top or member), "nparams": len(n["params"]),
+                                            "ptypes": [[q["t"], q["vararg"]] for q in n["params"]],
+                                            "block": bool(n["body"]) and n["body"]["n"] == "block"}])
+            tps(n["tparams"]); L(n["params"], nf=not (top or member))
             if n["retType"] is not None:
-                out.append(["retannot", n["name"], {}])
+                out.append(["retannot", n["name"], {"t": n["retType"]}])
             N(n["body"])
         elif k == "lambda":
             L(n["params"], lam=True); N(n["body"])
@@ -72,14 +85,14 @@ def inventory(e):
         elif k == "is":
             N(n["e"])
         elif k == "new":
-            out.append(["new", None, {"explicit": not n["canInfer"]}])
+            out.append(["new", None, {"explicit": not n["canInfer"], "t": n["t"]}])
             L(n["args"])
         elif k == "fieldaccess":
             N(n["e"])
         elif k == "call":
             N(n["receiver"])
             if not n["canInfer"] and n["targs"]:
-                out.append(["targs", n["func"], {}])
+                out.append(["targs", n["func"], {"ts": list(n["targs"])}])
             L(n["args"])
         elif k == "assign":
             N(n["receiver"]); N(n["expr"])
@@ -87,7 +100,7 @@ def inventory(e):
             pass
         else:
             raise ValueError("unknown node " + k)
-    L(e["decls"])
+    L(e["decls"], top=True)
     return out
 
 
@@ -201,10 +214,10 @@ def text_literals(toks):
 
 # ------------------------------------------------------------------ scanners
 SCANNED = {
-    "kotlin": ["class", "tparam", "field", "func", "param", "retannot", "var", "varannot", "targs"],
-    "scala": ["class", "tparam", "field", "func", "param", "retannot", "var", "varannot"],
-    "java": ["class", "field"],
-    "groovy": ["class", "field"],
+    "kotlin": ["class", "tparam", "field", "super", "func", "param", "retannot", "var", "varannot", "targs", "new"],
+    "scala": ["class", "tparam", "field", "super", "func", "param", "retannot", "var", "varannot", "targs", "new"],
+    "java": ["class", "tparam", "super", "field", "func", "param", "var", "new"],
+    "groovy": ["class", "tparam", "super", "field", "func", "param", "var", "new"],
 }
 LAMBDA_PARAMS = {"kotlin": True, "scala": False}
 
@@ -380,7 +393,7 @@ def scan_kotlin(text):
         ev.append((p, e))
     # a header field `open val x: T` is also seen by the val/var rule: remove the var (+ varannot) events
     # that lie inside a class header (between a field position and the header's end)
-    return _drop_header_vars(S, ev)
+    return _drop_header_vars(S, _typed(S, ev, "kotlin"))
 
 
 def _drop_header_vars(S, ev):
@@ -461,7 +474,7 @@ def scan_scala(text):
             if S.t(j + 1)[1] == ":":
                 S.add(S.t(j + 1)[2], "varannot", S.t(j)[1])
     ev = sorted(S.ev, key=lambda x: x[0])
-    return _drop_header_vars(S, ev)
+    return _drop_header_vars(S, _typed(S, ev, "scala"))
 
 
 SYNTH_CLASS = re.compile(r"^(Main|Function\d+)$")
@@ -507,51 +520,84 @@ def scan(lang, text):
         return scan_kotlin(text)
     if lang == "scala":
         return scan_scala(text)
-    return scan_javalike(text)
+    return scan_javalike_full(lang, text)
 
 
 # ------------------------------------------------------------------ expected events per language
-def expected(lang, inv):
-    """projection of the IR inventory to what `scan(lang, ·)` reports, with the modifiers of the language"""
+def expected(lang, inv, e=None):
+    """projection of the IR inventory to what `scan(lang, ·)` reports, with the modifiers of the language and
+    (when the export `e` is given) the NAMES of the types the program carries, rendered by `type_text`"""
+    if lang in ("java", "groovy"):
+        return expected_javalike(lang, e, inv)
     out = []
+    typed = e is not None
+
+    def ty(i):
+        return canon_type(type_text(lang, e, i)) if typed else None
+
+    def elem(t, vararg):
+        ent = e["tt"][t]
+        return ent["args"][0] if vararg and ent["k"] == "p" else t
+
+    def add(tag, name, attrs, **types):
+        if typed:
+            attrs = dict(attrs, **types)
+        out.append([tag, name, attrs])
+
     for tag, name, a in inv:
         if tag not in SCANNED[lang]:
             continue
-        if lang == "kotlin":
-            if tag == "class":
+        if tag == "class":
+            if lang == "kotlin":
                 out.append([tag, name, {"kind": ("class", "interface", "abstract")[a["ctype"]],
                                         "open": (not a["final"]) and a["ctype"] != 1, "fun": False}])
-            elif tag == "field":
-                out.append([tag, name, {"final": a["final"], "open": a["open"], "override": a["override"]}])
-            elif tag == "func":
-                out.append([tag, name, {"open": not a["final"], "override": a["override"], "abstract": a["abstract"]}])
-            elif tag == "param":
-                out.append([tag, name, {"vararg": a["vararg"], "lambda": a["lambda"]}])
-            elif tag == "var":
-                out.append([tag, name, {"final": a["final"]}])
             else:
-                out.append([tag, name, {}])
-        elif lang == "scala":
-            if tag == "class":
                 out.append([tag, name, {"kind": ("class", "interface", "abstract")[a["ctype"]],
                                         "open": (not a["final"]) or a["ctype"] == 1}])
-            elif tag == "field":
-                out.append([tag, name, {"final": a["final"], "open": a["open"], "override": a["override"]}])
-            elif tag == "func":
+        elif tag == "field":
+            add(tag, name, {"final": a["final"], "open": a["open"], "override": a["override"]},
+                type=ty(a["t"]) if typed else None)
+        elif tag == "func":
+            if lang == "kotlin":
+                out.append([tag, name, {"open": not a["final"], "override": a["override"], "abstract": a["abstract"]}])
+            else:
                 out.append([tag, name, None])       # modifiers depend on the enclosing class: names only
-            elif tag == "param":
+        elif tag == "param":
+            if lang == "scala":
                 if a["lambda"]:
                     continue
-                out.append([tag, name, {"lambda": False}])
-            elif tag == "var":
-                out.append([tag, name, {"final": a["final"]}])
+                add(tag, name, {"lambda": False}, type=ty(elem(a["t"], a["vararg"])) if typed else None)
+            else:
+                add(tag, name, {"vararg": a["vararg"], "lambda": a["lambda"]},
+                    type=ty(elem(a["t"], a["vararg"])) if typed else None)
+        elif tag == "var":
+            out.append([tag, name, {"final": a["final"]}])
+        elif tag in ("varannot", "retannot"):
+            add(tag, name, {}, type=ty(a["t"]) if typed else None)
+        elif tag == "tparam":
+            if typed:
+                b = "Any" if a.get("bound") is None else ty(a["bound"])
+                add(tag, name, {}, bound=b, variance=a.get("var", 0))
             else:
                 out.append([tag, name, {}])
+        elif tag == "targs":
+            if typed:
+                xs = [type_text(lang, e, t) for t in a["ts"]]
+                o, c = ("<", ">") if lang == "kotlin" else ("[", "]")
+                add(tag, name, {}, type=None if None in xs else canon_type(o + ", ".join(xs) + c))
+            else:
+                out.append([tag, name, {}])
+        elif tag == "super":
+            if typed:
+                add(tag, name, {}, type=ty(a["t"]))
+        elif tag == "new":
+            if typed:
+                ent = e["tt"][a["t"]]
+                if lang == "scala" and ent["k"] == "b" and "scala_types.AnyType" in ent.get("cls", ""):
+                    continue        # ScalaTranslator.visit_new: `1.asInstanceOf[Any]`
+                add(tag, name, {}, type=canon_type(ent.get("name", "?")) if not a["explicit"] else ty(a["t"]))
         else:
-            if tag == "class":
-                out.append([tag, name, {"kind": ("class", "interface", "abstract")[a["ctype"]]}])
-            elif tag == "field":
-                out.append([tag, name, {"final": a["final"]}])
+            out.append([tag, name, {}])
     return out
 
 
@@ -561,6 +607,9 @@ def compare(lang, exp, got):
     statement in a Unit function), Java/Groovy `Main` and `FunctionN`."""
     synth = 0
     ordered = lang in ("kotlin", "scala")
+    if not ordered and any(e[0] not in ("class", "field") for e in exp + got):
+        d, synth, _ = compare_unordered(exp, got)
+        return d, synth
     if not ordered:
         g2 = []
         for e in got:
@@ -583,7 +632,7 @@ def compare(lang, exp, got):
     while i < len(exp) or j < len(got):
         e = exp[i] if i < len(exp) else None
         g = got[j] if j < len(got) else None
-        if g is not None and e is not None and g[0] == e[0] and g[1] == e[1] and (e[2] is None or g[2] == e[2]):
+        if g is not None and e is not None and g[0] == e[0] and g[1] == e[1] and _attrs_match(e[2], g[2]):
             i += 1; j += 1
             continue
         if g is not None and g[0] == "var" and ((lang == "kotlin" and g[1] == "y" and not g[2].get("final")) or
@@ -594,3 +643,610 @@ def compare(lang, exp, got):
         return {"index": i, "expected": e, "scanned": g, "before": exp[max(0, i - 2):i],
                 "n_expected": len(exp), "n_scanned": len(got)}, synth
     return None, synth
+
+
+# ====================================================================== type names (specification side)
+# The text a language's translator is to print for a type, written down from the language's naming rules and
+# computed from the export alone (never from a translator object):
+#   wildcard (as a whole type) -> its bound, recursively;  non-parameterized -> the type's own name (a built-in's
+#   name is the one its language gives it, primitives included: `int`, `Int`, …; a class, type parameter or type
+#   constructor: its name);  parameterized -> Name<args> (Scala Name[args]) with use-site variance
+#   `? extends` / `? super` / `?` (Java, Groovy), `out` / `in` / `*` (Kotlin), `? <:` / `? >:` / `?` (Scala);
+#   arrays of the translator's OWN language: `T[]` (Java: boxed element; Groovy), Kotlin `IntArray` … for the
+#   specialised arrays;  Java boxes every type argument (`int` -> `Integer`, `void` -> `Void`).
+# `None` = not rendered exactly (counted as `type_text_inexact`, not compared).
+BOXED = {"boolean": "Boolean", "byte": "Byte", "char": "Character", "short": "Short", "int": "Integer",
+         "long": "Long", "float": "Float", "double": "Double", "void": "Void"}
+_ARRAY_CLS = {"java": ("src.ir.java_types.ArrayType",), "groovy": ("src.ir.groovy_types.ArrayType",),
+              "kotlin": ("src.ir.kotlin_types.SpecializedArrayType",),
+              "scala": ()}
+_WILD = {"java": ("?", "? extends ", "? super "), "groovy": ("?", "? extends ", "? super "),
+         "kotlin": ("*", "out ", "in "), "scala": ("?", "? <: ", "? >: ")}
+
+
+def type_text(lang, e, i, box=False, boxed_void=False):
+    """text of type e["tt"][i] as `lang` writes it, or None"""
+    if i is None:
+        return None
+    t = e["tt"][i]
+    k = t["k"]
+    if k == "w":
+        j, seen = i, 0
+        while j is not None and e["tt"][j]["k"] == "w":
+            j = e["tt"][j]["bound"]
+            seen += 1
+            if seen > 50:
+                return None
+        if j is None:
+            return None
+        return type_text(lang, e, j, box, boxed_void)
+    if k in ("b", "s", "v", "c"):
+        nm = t["name"]
+        if lang == "java":
+            if boxed_void and "java_types.VoidType" in t.get("cls", ""):
+                return "Void"
+            if box:
+                return BOXED.get(nm, nm)
+        return nm
+    if k == "p":
+        con = e["tt"][t["con"]]
+        cls = con.get("cls", "")
+        if any(c in cls for c in _ARRAY_CLS[lang]):
+            if lang == "java":
+                x = type_text(lang, e, t["args"][0], True, False)
+                return None if x is None else x + "[]"
+            if lang == "groovy":
+                x = type_text(lang, e, t["args"][0])
+                return None if x is None else x + "[]"
+            if lang == "kotlin":
+                x = type_text(lang, e, t["args"][0])
+                return None if x is None else x + "Array"
+        args = []
+        for a in t["args"]:
+            ta = e["tt"][a]
+            if ta["k"] == "w":
+                inv, cov, con_ = _WILD[lang]
+                if ta["var"] == 0 or ta["bound"] is None:
+                    if ta["var"] != 0:
+                        return None
+                    args.append(inv)
+                    continue
+                x = type_text(lang, e, ta["bound"], lang == "java", lang == "java")
+                if x is None:
+                    return None
+                args.append((cov if ta["var"] == 1 else con_) + x)
+            else:
+                x = type_text(lang, e, a, lang == "java", lang == "java")
+                if x is None:
+                    return None
+                args.append(x)
+        o, c = ("[", "]") if lang == "scala" else ("<", ">")
+        return "%s%s%s%s" % (t["name"], o, ", ".join(args), c)
+    return None
+
+
+def canon_type(s):
+    """token-level canonical form of a type text (spacing-insensitive)"""
+    if s is None:
+        return None
+    return " ".join(x[1] for x in tokenize(s) if x[0] != "nl")
+
+
+# ====================================================================== Java / Groovy: the full declaration vocabulary
+JKW = {"return", "new", "final", "static", "public", "abstract", "class", "interface", "extends", "implements",
+       "instanceof", "else", "package", "as", "super", "this", "in", "if", "true", "false", "null", "import"}
+SYNTH_VAR = re.compile(r"^x_\d+$")
+
+
+def _canon(S, a, b):
+    return " ".join(S.toks[x][1] for x in range(a, b) if S.toks[x][0] != "nl")
+
+
+def _type_fwd(S, i, angle=("<", ">")):
+    """a type starting at token i: id [<…>] ([ ])* -> (index after it, canonical text) | None"""
+    if S.t(i)[0] != "id" or S.t(i)[1] in JKW:
+        return None
+    j = i + 1
+    if S.t(j)[1] == angle[0] and not S.t(j)[3]:
+        c = S.close(j, angle[0], angle[1])
+        if c < 0:
+            return None
+        j = c + 1
+    if angle[0] == "<":
+        while S.t(j)[1] == "[" and S.t(j + 1)[1] == "]":
+            j += 2
+    return j, _canon(S, i, j)
+
+
+def _type_back(S, j):
+    """index of the first token of the type whose last token is j | None"""
+    k = j
+    while S.t(k)[1] == "]" and S.t(k - 1)[1] == "[":
+        k -= 2
+    if S.t(k)[1] == ">" and not S.t(k)[3]:
+        d, m = 0, k
+        while m >= 0:
+            if S.toks[m][0] == "op":
+                if S.toks[m][1] == ">":
+                    d += 1
+                elif S.toks[m][1] == "<":
+                    d -= 1
+                    if d == 0:
+                        break
+            m -= 1
+        if m < 0:
+            return None
+        k = m - 1
+    if S.t(k)[0] == "id" and S.t(k)[1] not in JKW:
+        return k
+    return None
+
+
+def _open_back(S, j, op, cl):
+    d, m = 0, j
+    while m >= 0:
+        if S.toks[m][0] == "op":
+            if S.toks[m][1] == cl:
+                d += 1
+            elif S.toks[m][1] == op:
+                d -= 1
+                if d == 0:
+                    return m
+        m -= 1
+    return -1
+
+
+def _param_item(S, a, b, done, lam, emit=True):
+    """one item `TYPE[...] NAME [= default]` (or `NAME`) of a parameter list, tokens [a, b)"""
+    T = S.toks
+    d, cut = 0, b
+    for x in range(a, b):
+        if T[x][0] == "op":
+            if T[x][1] in "([{" or (T[x][1] == "<" and not T[x][3]):
+                d += 1
+            elif T[x][1] in ")]}" or (T[x][1] == ">" and d > 0 and not T[x][3]):
+                d -= 1
+            elif T[x][1] == "=" and d == 0:
+                cut = x
+                break
+    idx = [x for x in range(a, cut) if T[x][0] != "nl"]
+    if not idx or T[idx[-1]][0] != "id":
+        return
+    ni = idx[-1]
+    ty = idx[:-1]
+    va = len(ty) >= 3 and all(T[x][1] == "." for x in ty[-3:])
+    if va:
+        ty = ty[:-3]
+    done.add(ni)
+    if emit:
+        S.add(T[ni][2], "param", T[ni][1], vararg=va, type=" ".join(T[x][1] for x in ty), **{"lambda": lam})
+
+
+def scan_javalike_full(lang, text):
+    """Java / Groovy: classes (kind), type parameters (bound), super clauses (type), fields (final, type),
+    methods (return type), parameters of methods / lambdas / closures (type, vararg), variables incl. the
+    `FunctionN<…> f = (a, b) -> …` / `def f = { … -> … }` form of nested functions (final, type | `def`),
+    constructor calls (`new` + the printed class type with its type arguments or `<>`)"""
+    S = _S(text)
+    T = S.toks
+    done = set()
+    depth, cls, skip_to = 0, [], -1
+    for i, (k, s, pos, sp) in enumerate(T):
+        if i < skip_to:
+            continue
+        if k == "op" and s == "{":
+            depth += 1
+            if lang == "groovy" and S.t(i + 1)[0] != "nl":
+                d, j, arrow = 0, i + 1, -1
+                while j < len(T):
+                    kk, ss, _, spp = T[j]
+                    if kk == "op":
+                        if ss in "([{" or (ss == "<" and not spp):
+                            d += 1
+                        elif ss in ")]}" or (ss == ">" and d > 0 and not spp):
+                            if d == 0:
+                                break
+                            d -= 1
+                        elif ss == "->" and d == 0:
+                            arrow = j
+                            break
+                    j += 1
+                if arrow > 0:
+                    for a, b in S.top_items(i, arrow):
+                        _param_item(S, a, b, done, True)
+            continue
+        if k == "op" and s == "}":
+            depth -= 1
+            if cls and depth < cls[-1][0]:
+                cls.pop()
+            continue
+        if k == "op" and s == ")" and S.t(i + 1)[1] == "->" and lang == "java":
+            m = _open_back(S, i, "(", ")")
+            if m >= 0:
+                for a, b in S.top_items(m, i):
+                    _param_item(S, a, b, done, True)
+            continue
+        if k != "id":
+            continue
+        if s in ("class", "interface") and S.t(i - 1)[1] != ".":
+            mods = _mods_before(S, i, ("final", "abstract", "public", "static"))
+            j = S.nx(i)
+            name = S.t(j)[1]
+            synth = bool(SYNTH_CLASS.match(name))
+            kind = "interface" if s == "interface" else ("abstract" if "abstract" in mods else "class")
+            S.add(pos, "class", name, kind=kind, final="final" in mods, synthetic=synth)
+            j += 1
+            if synth and name != "Main":
+                while j < len(T) and T[j][1] != "{":
+                    j += 1
+                c = S.close(j, "{", "}")
+                skip_to = c + 1 if c > 0 else len(T)
+                continue
+            if S.t(j)[1] == "<" and not S.t(j)[3]:
+                c = S.close(j, "<", ">")
+                for a, b in S.top_items(j, c):
+                    ids = [x for x in range(a, b) if T[x][0] != "nl"]
+                    if not ids:
+                        continue
+                    bound = ""
+                    if len(ids) > 1 and T[ids[1]][1] == "extends":
+                        bound = " ".join(T[x][1] for x in ids[2:])
+                    S.add(T[ids[0]][2], "tparam", T[ids[0]][1], bound=bound)
+                j = c + 1
+            while S.t(j)[1] in ("extends", "implements"):
+                j += 1
+                while True:
+                    r = _type_fwd(S, j)
+                    if r is None:
+                        break
+                    S.add(T[j][2], "super", None, type=r[1])
+                    j = r[0]
+                    if S.t(j)[1] == ",":
+                        j += 1
+                        continue
+                    break
+            cls.append((depth + 1, name, synth))
+            continue
+        if s == "new":
+            r = _type_fwd(S, i + 1)
+            if r is not None and S.t(r[0])[1] == "(":
+                synth = r[1] in ("Long", "Double") and [S.t(i - 3)[1], S.t(i - 2)[1], S.t(i - 1)[1]] == ["(", "Number", ")"]
+                S.add(pos, "new", None, type=r[1], synthetic=synth)
+            continue
+        if s in JKW or i in done:
+            continue
+        nxt = S.t(i + 1)
+        # constructor `public Name(params)`: synthetic
+        if cls and s == cls[-1][1] and nxt[1] == "(" and S.t(i - 1)[1] == "public" and depth == cls[-1][0]:
+            c = S.close(i + 1, "(", ")")
+            for a, b in S.top_items(i + 1, c):
+                _param_item(S, a, b, done, False, emit=False)
+            S.add(pos, "constructor", s, synthetic=True)
+            continue
+        if nxt[1] not in ("=", "(", ";") and nxt[0] not in ("nl", "eof"):
+            continue
+        j = i - 1
+        mainp = False
+        if S.t(j)[1] == "." and S.t(j - 1)[1] == "Main":
+            j -= 2
+            mainp = True
+        if S.t(j)[0] == "nl":
+            continue
+        ts = _type_back(S, j)
+        if ts is None or S.t(ts - 1)[1] in ("instanceof", "new", ".", "as", "extends", "super", "?", "<", ","):
+            continue
+        typ = _canon(S, ts, j + 1)
+        mods = _mods_before(S, ts, ("final", "static", "public", "abstract"))
+        if nxt[1] == "=":
+            S.add(pos, "var", s, final="final" in mods, type=typ, synthetic=bool(SYNTH_VAR.match(s)))
+        elif nxt[1] == "(":
+            if mainp:
+                continue
+            b4 = ts - 1
+            if S.t(b4)[1] == ">" and not S.t(b4)[3]:
+                m = _open_back(S, b4, "<", ">")
+                if m >= 0 and (S.t(m - 1)[0] in ("nl", "eof") or S.t(m - 1)[1] in JKW):
+                    for a, b in S.top_items(m, b4):
+                        ids = [x for x in range(a, b) if T[x][0] != "nl"]
+                        if not ids:
+                            continue
+                        bound = ""
+                        if len(ids) > 1 and T[ids[1]][1] == "extends":
+                            bound = " ".join(T[x][1] for x in ids[2:])
+                        S.add(T[ids[0]][2], "tparam", T[ids[0]][1], bound=bound)
+                    mods = _mods_before(S, m, ("final", "static", "public", "abstract"))
+            S.add(pos, "func", s, ret=typ, abstract="abstract" in mods)
+            c = S.close(i + 1, "(", ")")
+            if c > 0:
+                for a, b in S.top_items(i + 1, c):
+                    _param_item(S, a, b, done, False)
+        else:
+            if "public" in mods and cls and depth == cls[-1][0] and not mainp:
+                S.add(pos, "field", s, final="final" in mods, type=typ)
+    return S.events()
+
+
+def _ct(s):
+    return None if s is None else canon_type(s)
+
+
+def expected_javalike(lang, e, inv, stats=None):
+    """what `scan_javalike_full` is to report for a program with inventory `inv` (Java: computed with
+    skip_defaults): the declarations with the NAMES of the types the program carries.  A `None` type = any type
+    text is accepted there (Java / Groovy print a type the program does not carry: the recorded findings)."""
+    out = []
+    tt = lambda i, **kw: type_text(lang, e, i, **kw)   # noqa: E731
+
+    def st(key):
+        if stats is not None:
+            stats[key] = stats.get(key, 0) + 1
+
+    def elem(t, vararg):
+        ent = e["tt"][t]
+        return ent["args"][0] if vararg and ent["k"] == "p" else t
+
+    for tag, name, a in inv:
+        if tag == "class":
+            out.append([tag, name, {"kind": ("class", "interface", "abstract")[a["ctype"]]}])
+        elif tag == "tparam":
+            b = ""
+            if a["bound"] is not None:
+                b = tt(a["bound"])
+                if b is not None and lang == "java":
+                    b = BOXED.get(b, b)
+                b = _ct(b)
+            out.append([tag, name, {"bound": b}])
+        elif tag == "super":
+            out.append([tag, None, {"type": _ct(tt(a["t"]))}])
+        elif tag == "field":
+            out.append([tag, name, {"final": a["final"], "type": _ct(tt(a["t"]))}])
+        elif tag == "param":
+            if lang == "java" and a["nestedfunc"]:
+                out.append([tag, name, {"vararg": False, "type": "", "lambda": True}])
+                # printed as the lambda `(a, b) -> …` of a FunctionN variable: names only
+            else:
+                out.append([tag, name, {"vararg": a["vararg"], "type": _ct(tt(elem(a["t"], a["vararg"]))),
+                                        "lambda": a["lambda"] or (lang == "groovy" and a["nestedfunc"])}])
+        elif tag == "func":
+            carried = a["ret"] is not None
+            st("ret_carried" if carried else "ret_not_carried")
+            if not a["nested"]:
+                out.append([tag, name, {"ret": _ct(tt(a["ret"])) if carried else None, "abstract": a["abstract"]}])
+            elif lang == "java":
+                ty = None
+                if carried:
+                    parts = []
+                    for t, va in a["ptypes"]:
+                        x = tt(elem(t, va))
+                        parts.append(None if x is None else BOXED.get(x + ("[]" if va else ""), x + ("[]" if va else "")))
+                    r = tt(a["ret"], boxed_void=True)
+                    parts.append(None if r is None else BOXED.get(r, r))
+                    if None not in parts:
+                        ty = _ct("Function%d<%s>" % (a["nparams"], ", ".join(parts)))
+                out.append(["var", name, {"final": False, "type": ty}])
+            else:
+                ty = "def"
+                if carried:
+                    ent = e["tt"][a["ret"]]
+                    if not (ent["k"] == "b" and "groovy_types.VoidType" in ent.get("cls", "")):
+                        r = tt(a["ret"])
+                        if r is not None and ent["k"] == "b" and ent.get("prim"):
+                            r = BOXED.get(r, r)
+                        ty = None if r is None else _ct("Closure<%s>" % r)
+                out.append(["var", name, {"final": False, "type": ty}])
+        elif tag == "var":
+            carried = a["t"] is not None
+            st("var_carried" if carried else "var_not_carried")
+            if carried:
+                ty = _ct(tt(a["t"]))
+            elif lang == "groovy" and not a["global"]:
+                ty = "def"
+            else:
+                ty = None
+            out.append([tag, name, {"final": a["final"], "type": ty}])
+        elif tag == "new":
+            ent = e["tt"][a["t"]]
+            if not a["explicit"]:
+                ty = _ct(ent.get("name", "?") + "<>")
+            else:
+                ty = _ct(tt(a["t"]))
+            out.append([tag, None, {"type": ty}])
+    return out
+
+
+WILD_KEYS = ("type", "ret", "bound")
+
+
+def _attrs_match(ea, ga):
+    if ea is None:
+        return True
+    for k, v in ea.items():
+        if v is None and k in WILD_KEYS:
+            continue
+        if ga.get(k) != v:
+            return False
+    return True
+
+
+def compare_unordered(exp, got):
+    """multiset comparison by (tag, name); an expected attribute `None` (type / ret / bound) accepts any text.
+    -> (first difference | None, number of synthetic declarations skipped, number of wildcard matches)"""
+    synth = wild = 0
+    bg = {}
+    for g in got:
+        if g[2].get("synthetic"):
+            synth += 1
+            continue
+        a = {k: v for k, v in g[2].items() if k != "synthetic"}
+        if g[0] == "class":
+            a.pop("final", None)
+        bg.setdefault((g[0], g[1]), []).append(a)
+    be = {}
+    for x in exp:
+        be.setdefault((x[0], x[1]), []).append(x[2])
+    for key in sorted(set(be) | set(bg), key=lambda k: (k[0], k[1] or "")):
+        es, gs = list(be.get(key, [])), list(bg.get(key, []))
+        # exact expectations first, wildcards last
+        es.sort(key=lambda a: sum(1 for k in WILD_KEYS if k in a and a[k] is None))
+        for ea in es:
+            hit = next((x for x in gs if _attrs_match(ea, x)), None)
+            if hit is None:
+                return ({"declaration": [key[0], key[1]], "expected": ea, "scanned_candidates": gs[:4],
+                         "n_expected": len(be.get(key, [])), "n_scanned": len(bg.get(key, []))}, synth, wild)
+            if any(ea.get(k, 0) is None for k in WILD_KEYS):
+                wild += 1
+            gs.remove(hit)
+        if gs:
+            return ({"declaration": [key[0], key[1]], "expected": None, "scanned": gs[0],
+                     "n_expected": len(be.get(key, [])), "n_scanned": len(bg.get(key, []))}, synth, wild)
+    return None, synth, wild
+
+
+# ====================================================================== Kotlin / Scala: the printed type names
+KT_NOT_NEW = re.compile(r"^(TODO|(Byte|Short|Int|Long|Float|Double|Char|Boolean)Array)$")
+
+
+def _typed(S, ev, lang):
+    """adds to the events of scan_kotlin / scan_scala the TEXT of the printed types (`type` of field / param /
+    varannot / retannot, `bound` + `variance` of tparam, `type` of targs) and the events `super` (type) and `new`
+    (class type with its explicit type arguments).  ev: [(pos, event)] -> the same, sorted by position."""
+    T = S.toks
+    at = {t[2]: i for i, t in enumerate(T)}
+    angle = ("<", ">") if lang == "kotlin" else ("[", "]")
+    out = list(ev)
+
+    def after_colon(i, limit=8):
+        for j in range(i, min(i + limit, len(T))):
+            if T[j][1] == ":" and T[j][0] == "op":
+                r = _type_fwd(S, S.nx(j), angle)
+                return r[1] if r else "?"
+            if T[j][0] == "nl":
+                break
+        return "?"
+
+    for pos, e in out:
+        i = at.get(pos)
+        if i is None:
+            continue
+        tag = e[0]
+        if tag in ("field", "param", "varannot", "retannot"):
+            e[2]["type"] = after_colon(i)
+        elif tag == "tparam":
+            e[2]["bound"] = after_colon(i, 4)
+            pv = S.t(i - 1)[1]
+            e[2]["variance"] = {"out": 1, "in": 2, "+": 1, "-": 2}.get(pv, 0) if (
+                S.t(i - 1)[0] == "id" or (lang == "scala" and not S.t(i)[3])) else 0
+        elif tag == "targs":
+            j = i + 1
+            c = S.close(j, angle[0], angle[1])
+            e[2]["type"] = _canon(S, j, c + 1) if c > 0 else "?"
+    # super clauses
+    not_new = set()
+    for i, (k, s, pos, sp) in enumerate(T):
+        if k == "id" and s in ("class", "interface", "trait") and S.t(i - 1)[1] != ".":
+            j = S.nx(S.nx(i))
+            if S.t(j)[1] == angle[0] and not S.t(j)[3]:
+                j = S.close(j, angle[0], angle[1]) + 1
+            if S.t(j)[1] == "(" and not S.t(j)[3]:
+                j = S.close(j, "(", ")") + 1
+            if (lang == "kotlin" and S.t(j)[1] == ":") or (lang == "scala" and S.t(j)[1] == "extends"):
+                j += 1
+                while True:
+                    r = _type_fwd(S, j, angle)
+                    if r is None:
+                        break
+                    not_new.add(j)
+                    out.append((T[j][2], ["super", None, {"type": r[1]}]))
+                    j = r[0]
+                    if S.t(j)[1] == "(" and not S.t(j)[3]:
+                        j = S.close(j, "(", ")") + 1
+                    if S.t(j)[1] == "," or (S.t(j)[1] == "with" and lang == "scala"):
+                        j += 1
+                        continue
+                    break
+    # constructor calls
+    for i, (k, s, pos, sp) in enumerate(T):
+        if lang == "scala":
+            if k == "id" and s == "new":
+                r = _type_fwd(S, i + 1, angle)
+                if r is not None and S.t(r[0])[1] == "(":
+                    out.append((pos, ["new", None, {"type": r[1]}]))
+            elif k == "id" and s.startswith("`") and S.t(i + 1)[1] == "[" and not S.t(i + 1)[3] \
+                    and S.t(i - 1)[1] != "def":
+                c = S.close(i + 1, "[", "]")
+                if c > 0 and S.t(c + 1)[1] == "(":
+                    out.append((pos, ["targs", s.strip("`"), {"type": _canon(S, i + 1, c + 1)}]))
+        elif k == "id" and s[:1].isupper() and i not in not_new and not KT_NOT_NEW.match(s) \
+                and S.t(i - 1)[1] not in ("class", "interface", "fun", ".", "is", "as"):
+            r = _type_fwd(S, i, angle)
+            if r is not None and S.t(r[0])[1] == "(" and not S.t(r[0])[3]:
+                out.append((pos, ["new", None, {"type": r[1]}]))
+    out.sort(key=lambda x: x[0])
+    return out
+
+
+# ====================================================================== pure judgement (usable inside a worker)
+def judge_pure(lang, text, e, legs=("S1", "S3")):
+    """S1 (declarations, with type names) and S3 (balance) of one real text against the export `e`;
+    -> {"n": declarations compared, "synthetic": n, "diffs": [(leg, signature, detail)]}"""
+    out = {"n": 0, "synthetic": 0, "diffs": []}
+    if "S3" in legs:
+        b = balance(tokenize(text))
+        if b is not None:
+            out["diffs"].append(("S3 balance", "unbalanced:%s:%s" % (lang, b["error"].split()[0]),
+                                 dict(b, around=text[max(0, b["pos"] - 100):b["pos"] + 60])))
+    if "S1" in legs:
+        inv = inventory(e, skip_defaults=(lang == "java"))
+        exp = expected(lang, inv, e)
+        got = scan(lang, text)
+        d, synth = compare(lang, exp, got)
+        out["n"], out["synthetic"] = len(exp), synth
+        if d is not None:
+            out["diffs"].append(("S1 declarations", "declarations-differ:%s:%s" % (lang, diff_tag(d)), d))
+    return out
+
+
+def diff_tag(d):
+    if d.get("declaration"):
+        return d["declaration"][0]
+    return (d.get("scanned") or d.get("expected") or ["?"])[0]
+
+
+def changed_sites(e1, e2, lang="kotlin"):
+    """the declarations at which two exports of the same program shape carry different types:
+    [[kind, name, old type text, new type text]] with kind in var_type / ret_type / new_type_argument /
+    call_type_argument / other (types rendered by `type_text(lang, …)`; a structural change -> [["shape", …]])"""
+    out = []
+
+    def tx(e, i):
+        return None if i is None else (type_text(lang, e, i) or "?")
+
+    def W(a, b):
+        if isinstance(a, list) and isinstance(b, list):
+            if len(a) != len(b):
+                out.append(["shape", None, None, None])
+                return
+            for x, y in zip(a, b):
+                W(x, y)
+            return
+        if not isinstance(a, dict) or not isinstance(b, dict):
+            return
+        if a.get("n") != b.get("n"):
+            out.append(["shape", a.get("n"), None, None])
+            return
+        k = a.get("n")
+        if k == "var" and tx(e1, a["varType"]) != tx(e2, b["varType"]):
+            out.append(["var_type", a["name"], tx(e1, a["varType"]), tx(e2, b["varType"])])
+        if k == "func" and tx(e1, a["retType"]) != tx(e2, b["retType"]):
+            out.append(["ret_type", a["name"], tx(e1, a["retType"]), tx(e2, b["retType"])])
+        if k == "new" and (tx(e1, a["t"]) != tx(e2, b["t"]) or a["canInfer"] != b["canInfer"]):
+            out.append(["new_type_argument", e1["tt"][a["t"]].get("name"), tx(e1, a["t"]), tx(e2, b["t"])])
+        if k == "call" and ([tx(e1, t) for t in a["targs"]] != [tx(e2, t) for t in b["targs"]]
+                            or a["canInfer"] != b["canInfer"]):
+            out.append(["call_type_argument", a["func"], ",".join(str(tx(e1, t)) for t in a["targs"]),
+                        ",".join(str(tx(e2, t)) for t in b["targs"])])
+        for key, v in a.items():
+            if isinstance(v, (dict, list)) and key in b:
+                W(v, b[key])
+    W(e1["decls"], e2["decls"])
+    return out
